@@ -1,6 +1,6 @@
 """Sidecar contracts for /repo/bisturi (never edits the repository)."""
 
-ALL_MODULES = ['c_fragments', 'c_structural', 'c_field', 'c_packet']
+ALL_MODULES = ['c_fragments', 'c_structural', 'c_field', 'c_packet', 'c_descriptor']
 
 _COMMON_TRUST = [
     'builtin/library contracts of DESIGN.md 2.5-2.6 (assumed; cross-checked against CPython by pyvc/crosscheck.py, bounded)',
@@ -14,6 +14,25 @@ _DATA_FUNCS = ['field:Data._unpack_fixed_size', 'field:Data._unpack_variable_siz
                'field:Data._unpack_with_regexp_marker', 'field:Data.pack']
 
 PROPERTIES = {
+    'C17': dict(
+        level='proof',
+        functions=['descriptor:Auto._compile', 'descriptor:Auto.__get__', 'descriptor:Auto.__set__',
+                   'descriptor:Auto.__delete__', 'descriptor:Auto.sync_before_pack',
+                   'descriptor:AutoLength.calculate_length', 'packet:Packet.__init__'],
+        lemmas=['C17.visible_depends_only_on_flag_and_hidden'],
+        trusted_base=_COMMON_TRUST + ["python's descriptor protocol dispatches attribute get/set/delete of a described field to Auto.__get__/__set__/__delete__ (role:DESC.__set__)"],
+        assumptions=['the computing function (Auto.func) is pure and does not read the hidden slot',
+                     'WFClass: descriptor flag/hidden slot names of distinct fields are distinct and not owned by other fields',
+                     'generated code is covered by C03'],
+    ),
+    'C19': dict(
+        level='proof',
+        functions=['field:Field.__init__', 'field:Field.init', 'field:Int.init', 'field:Data.init', 'field:Data.__init__',
+                   'structural_fields:Sequence.init', 'structural_fields:Optional.init', 'packet:Packet.__init__'],
+        trusted_base=_COMMON_TRUST + ['copy.deepcopy returns a fresh object graph for non-primitive values'],
+        assumptions=['embed=True is excluded (documented as experimental)',
+                     'Ref.init / Bits.init / Prototype.clone / Sequence.__init__ / Optional.__init__ are NOT under contract in this round'],
+    ),
     'C08': dict(
         level='proof',
         functions=['structural_fields:Sequence.unpack', 'structural_fields:Sequence.pack',
@@ -73,6 +92,18 @@ PROPERTIES = {
 }
 
 MANIFEST_TEXT = {
+    'C17': dict(
+        text='Proof of the per-operation contracts from which every history follows by induction: with visible = computed value while the enabled flag is unset/true, '
+             'hidden value otherwise - __get__ returns visible; __set__(v) makes visible == v (independent of the tracked field); __delete__ re-enables the computed value; '
+             'the constructor keyword of a described field acts exactly like __set__ (0 and other falsy values included); sync_before_pack stores visible into the hidden slot that pack serialises '
+             'and does not change the flag; pack_impl runs the sync hooks before the fields; the flag lives in a declared slot.',
+        note="Python's descriptor dispatch and the naming scheme linking a described field to its flag/hidden slots are assumed (role contract); Auto.func is a pure role callable. "
+             'Both code paths: generic pack_impl here, generated code through C03.'),
+    'C19': dict(
+        text='Proof for the leaf kinds and the constructor driver: after init each field slot holds the keyword argument if named, else the declared default '
+             '(Int/Data/Bits-like: the default object; containers and packets: a deep copy, i.e. a fresh object never shared); Data.__init__ computes NUL bytes of the declared '
+             'size for fixed byte strings without default and keeps the given default otherwise; Sequence/Optional init their own slot and the element scratch slot only.',
+        note='Ref.init, Bits.init, Prototype.clone and Sequence/Optional.__init__ are not yet under contract (listed in the evidence); copy.deepcopy is an assumed contract; embed=True excluded.'),
     'C08': dict(
         text='Proof for any element field (abstract field contract), any input and list length: the real bodies of Sequence.unpack/pack, Optional.unpack/pack and '
              'Ref (packet prototype) satisfy the control clauses of the statement - max(count,0) elements; until: >= 1 element and the loop stops exactly when the '
